@@ -1390,6 +1390,8 @@ func (client *client) pollInflights() (cont bool, err error) {
 			client.pl.markUsedLocked(id)
 			client.write(client.publishWithRemainingExpiry(time.Now(), v, m.Message))
 		case *queue.Pubrel:
+			// the id stays in use until PUBCOMP
+			client.pl.markUsedLocked(id)
 			client.write(&packets.Pubrel{PacketID: id})
 		}
 	}
